@@ -185,10 +185,13 @@ def gen_spec(rng, variant=None, **kw):
             if rng.random() < 0.6:
                 s['coating'] = [rng.uniform(0.5, 1.0), rng.uniform(0.0, 0.4)]
     if variant == 'polarized':
+        mode = rng.choice(['uncoated', 'simple', 'fresnel', 'fresnel'])
         for s in spec['surfaces']:
             s.pop('coating', None)
-        spec['c13'] = {'polarization': rng.choice(['H', 'V', 'L+45', 'RCP', 'unpolarized']),
-                       'fresnel': rng.random() < 0.7}
+            if mode == 'simple' and rng.random() < 0.6:
+                s['coating'] = [rng.uniform(0.5, 1.0), rng.uniform(0.0, 0.4)]
+        spec['c13'] = {'polarization': rng.choice(['H', 'V', 'unpolarized', 'H', 'V', 'L+45', 'RCP']),
+                       'fresnel': mode == 'fresnel', 'coatings': mode}
     # fields are not always entered in ascending order (a call that sorts the lens' own field list, or relies
     # on its order, must show up)
     if len(spec['fields']) > 1 and rng.random() < 0.6:
@@ -546,18 +549,45 @@ def _records(optic):
     return np.array([getattr(sg, g) for g in ('x', 'y', 'z', 'L', 'M', 'N', 'intensity', 'opd')])   # (8, nsurf, nray)
 
 
-def batch_independence(optic, Hx, Hy, Px, Py, w, rng, subsets=3):
-    """trace the rays together, alone, in random subsets and permuted; returns (violations, max deviation,
-    count of comparisons).  Closed-form lenses: bit identity.  Lenses with iterated (Newton) surfaces: position
-    and direction within the intersection tolerance (scaled by the ray's 1/|N| and a margin, see slack)."""
-    n = len(Px)
+class _Points:
+    """a caller-made pupil distribution holding exactly the given points (Optic.trace only reads .x and .y)"""
+    def __init__(self, x, y):
+        self.x = np.array(x, dtype=float)
+        self.y = np.array(y, dtype=float)
+
+
+def _call_trace(optic, mode, Hx, Hy, Px, Py, w):
+    """one call with the given rays; returns dict of per-ray tables: 'records' (8, nsurf, n) from the surfaces,
+    'rays' (9, n) the returned bundle x y z L M N i opd w, 'p' (n, 3, 3) the polarization matrices if any"""
     f = lambda a: np.array(a, dtype=float)   # noqa
+    if mode == 'trace':
+        r = optic.trace(float(Hx[0]), float(Hy[0]), w, None, _Points(Px, Py))
+    else:
+        r = optic.trace_generic(f(Hx), f(Hy), f(Px), f(Py), w)
+    out = {'records': _records(optic),
+           'rays': np.array([r.x, r.y, r.z, r.L, r.M, r.N, r.i, r.opd])}
+    if hasattr(r, 'p'):
+        out['p'] = np.moveaxis(np.array(r.p), 0, -1)          # (3, 3, n): ray index last, like the others
+    return out
+
+
+def _same_up_to_nan(a, b):
+    return a.shape == b.shape and np.array_equal(np.isnan(a), np.isnan(b)) and \
+        np.where(np.isnan(a), 0.0, a).tobytes() == np.where(np.isnan(b), 0.0, b).tobytes()
+
+
+def batch_independence(optic, Hx, Hy, Px, Py, w, rng, subsets=3, mode='trace_generic'):
+    """trace the rays together, alone, in random subsets and permuted (through Optic.trace_generic, or through
+    Optic.trace with a caller-made distribution of exactly these pupil points); returns (violations, max
+    deviation, count of comparisons).  Compared per ray: the records of every surface, the returned bundle
+    (incl. the intensity after PolarizedRays.update_intensity) and the polarization matrix rays.p.
+    Closed-form lenses: bit identity.  Lenses with iterated (Newton) surfaces: within the tolerance slack."""
+    n = len(Px)
     with warnings.catch_warnings():
         warnings.simplefilter('ignore')
         old = np.seterr(all='ignore')
         try:
-            optic.trace_generic(f(Hx), f(Hy), f(Px), f(Py), w)
-            full = _records(optic)
+            full = _call_trace(optic, mode, Hx, Hy, Px, Py, w)
             newton = has_newton(optic)
             tol = newton_tol(optic)
             viol, worst, cmp_ = [], 0.0, 0
@@ -567,32 +597,35 @@ def batch_independence(optic, Hx, Hy, Px, Py, w, rng, subsets=3):
                 groups.append(rng.sample(range(n), k))
             groups.append(list(reversed(range(n))))
             for g in groups:
-                optic.trace_generic(f([Hx[j] for j in g]), f([Hy[j] for j in g]), f([Px[j] for j in g]),
-                                    f([Py[j] for j in g]), w)
-                sub = _records(optic)
+                sub = _call_trace(optic, mode, [Hx[j] for j in g], [Hy[j] for j in g], [Px[j] for j in g],
+                                  [Py[j] for j in g], w)
                 for col, j in enumerate(g):
-                    a, b = full[:, :, j], sub[:, :, col]
                     cmp_ += 1
-                    if a.shape != b.shape:
-                        viol.append({'ray': j, 'group': g, 'why': 'shape'})
-                        continue
-                    if np.where(np.isnan(a), 0.0, a).tobytes() == np.where(np.isnan(b), 0.0, b).tobytes() \
-                            and np.array_equal(np.isnan(a), np.isnan(b)):
-                        continue                 # bit-identical up to NaN sign/payload
-                    fin = np.isfinite(a) & np.isfinite(b)
-                    if not newton:
-                        viol.append({'ray': j, 'group': g, 'why': 'closed-form lens: not bit-identical',
-                                     'max_abs': float(np.max(np.abs(a[fin] - b[fin]))) if fin.any() else None})
-                        continue
-                    # same finiteness pattern, finite parts within the tolerance slack
-                    if not np.array_equal(np.isnan(a), np.isnan(b)):
-                        # a ray that is lost alone must be lost in company (and conversely)
-                        viol.append({'ray': j, 'group': g, 'why': 'NaN pattern differs'})
-                        continue
-                    dev = float(np.max(np.abs(a[fin] - b[fin]))) if fin.any() else 0.0
-                    worst = max(worst, dev)
-                    if dev > slack(tol):
-                        viol.append({'ray': j, 'group': g, 'why': 'beyond tolerance', 'deviation': dev, 'tol': tol})
+                    for part in full:
+                        if part not in sub:
+                            viol.append({'ray': j, 'group': g, 'part': part, 'why': 'missing in the smaller call'})
+                            continue
+                        a, b = full[part][..., j], sub[part][..., col]
+                        if a.shape != b.shape:
+                            viol.append({'ray': j, 'group': g, 'part': part, 'why': 'shape'})
+                            continue
+                        if _same_up_to_nan(a, b):
+                            continue                 # bit-identical up to NaN sign/payload
+                        fin = np.isfinite(a) & np.isfinite(b)
+                        dev = float(np.max(np.abs(a[fin] - b[fin]))) if fin.any() else 0.0
+                        if not newton:
+                            viol.append({'ray': j, 'group': g, 'part': part, 'deviation': dev,
+                                         'why': 'closed-form lens: not bit-identical'})
+                            continue
+                        # same finiteness pattern, finite parts within the tolerance slack
+                        if not np.array_equal(np.isnan(a), np.isnan(b)):
+                            # a ray that is lost alone must be lost in company (and conversely)
+                            viol.append({'ray': j, 'group': g, 'part': part, 'why': 'NaN pattern differs'})
+                            continue
+                        worst = max(worst, dev)
+                        if dev > slack(tol):
+                            viol.append({'ray': j, 'group': g, 'part': part, 'why': 'beyond tolerance',
+                                         'deviation': dev, 'tol': tol})
             return viol, worst, cmp_
         finally:
             np.seterr(**old)
@@ -604,16 +637,27 @@ def slack(tol):
     return 1e3 * tol
 
 
-def gen_rays(rng, spec, n):
+def gen_rays(rng, spec, n, same_field=False):
+    """a batch that mixes SPECIAL rays with ordinary skew rays: the axial ray (H = 0, P = 0: vertex hit, normal
+    incidence, undeviated at every surface of a centred lens), chief rays (P = 0), a marginal ray in the
+    meridional plane, a ray outside the pupil (clipped by apertures / lost / TIR candidates), and skew rays.
+    same_field: one field for all rays (what Optic.trace needs)"""
     maxf = max(abs(f[0]) for f in spec['fields'])
-    Hy = [rng.choice([0.0, 1.0, rng.uniform(0, 1)]) if maxf else 0.0 for _ in range(n)]
-    Hx = [0.0] * n
-    Px, Py = [], []
-    for i in range(n):
-        r, t = rng.choice([0.2, 0.6, 0.95, 1.3 if i % 6 == 5 else 0.8]), rng.uniform(0, 2 * math.pi)
-        Px.append(r * math.cos(t))
-        Py.append(r * math.sin(t))
-    return Hx, Hy, Px, Py
+    h0 = rng.choice([0.0, 1.0, rng.uniform(0, 1)]) if maxf else 0.0
+    special = [(0.0, 0.0, 0.0), (1.0 if maxf else 0.0, 0.0, 0.0), (0.0, 0.0, 1.0), (0.0, 0.0, -0.5),
+               (rng.uniform(0, 1) if maxf else 0.0, 1.3 * math.cos(1.0), 1.3 * math.sin(1.0))]
+    rng.shuffle(special)
+    rays = special[:max(2, n // 3)]
+    if not any(r == (0.0, 0.0, 0.0) for r in rays):
+        rays[0] = (0.0, 0.0, 0.0)
+    while len(rays) < n:
+        r, t = rng.choice([0.2, 0.6, 0.95, 0.8]), rng.uniform(0, 2 * math.pi)
+        rays.append((rng.choice([0.0, 1.0, rng.uniform(0, 1)]) if maxf else 0.0, r * math.cos(t), r * math.sin(t)))
+    rng.shuffle(rays)
+    if same_field:
+        h = 0.0 if rng.random() < 0.5 else h0
+        rays = [(h, px, py) for _, px, py in rays]
+    return [0.0] * n, [r[0] for r in rays], [r[1] for r in rays], [r[2] for r in rays]
 
 
 # ----------------------------------------------------------------------------------------------
@@ -1029,3 +1073,100 @@ def replay_method_history(spec, build_fn, constructor, history, method, kwargs):
         out.append('analysis-object-state-changed')
         out.append(_change_profile(raw0, _raw_arrays(obj)))
     return out
+
+
+# ----------------------------------------------------------------------------------------------
+# unit-level batch-vs-alone oracle for the per-ray polarization code
+# ----------------------------------------------------------------------------------------------
+UNIT_SITES = ['PolarizedRays.update', 'PolarizedRays.get_output_field', 'PolarizedRays.update_intensity']
+
+
+def _unit(v):
+    v = np.array(v, dtype=float)
+    return v / np.linalg.norm(v)
+
+
+def polarized_unit_independence(rng, ncases):
+    """PolarizedRays.update / get_output_field / update_intensity on a batch that mixes undeviated rays
+    (k1 = k0: normal incidence, index-matched surface), reversed rays (k1 = -k0) and deviated rays, against the
+    same rays one at a time.  Returns (violations, comparisons)."""
+    from optiland.rays import PolarizedRays
+    from optiland.rays.polarization_state import create_polarization
+    viol, cmp_ = [], 0
+
+    def make(k0, k1):
+        k0, k1 = np.atleast_2d(k0), np.atleast_2d(k1)
+        n = k0.shape[0]
+        r = PolarizedRays(np.zeros(n), np.zeros(n), np.zeros(n), k0[:, 0].copy(), k0[:, 1].copy(), k0[:, 2].copy(),
+                          np.ones(n), np.full(n, 0.55))
+        r.L0, r.M0, r.N0 = k0[:, 0].copy(), k0[:, 1].copy(), k0[:, 2].copy()
+        r.L, r.M, r.N = k1[:, 0].copy(), k1[:, 1].copy(), k1[:, 2].copy()
+        return r
+
+    with warnings.catch_warnings():
+        warnings.simplefilter('ignore')
+        old = np.seterr(all='ignore')
+        try:
+            for c in range(ncases):
+                n = rng.choice([2, 3, 5, 8])
+                k0, k1 = [], []
+                for j in range(n):
+                    a = _unit([rng.uniform(-0.4, 0.4), rng.uniform(-0.4, 0.4), 1.0])
+                    kind = 'same' if j == 0 else rng.choice(['same', 'dev', 'dev', 'dev', 'flip'])
+                    if kind == 'same':
+                        a = _unit([0.0, 0.0, 1.0]) if rng.random() < 0.5 else a
+                        b = a.copy()
+                    elif kind == 'flip':
+                        b = -a
+                    else:
+                        b = _unit(a + np.array([rng.uniform(-0.3, 0.3), rng.uniform(-0.3, 0.3), rng.uniform(-0.1, 0.1)]))
+                    k0.append(a)
+                    k1.append(b)
+                k0, k1 = np.array(k0), np.array(k1)
+                order = list(range(n))
+                rng.shuffle(order)
+                k0, k1 = k0[order], k1[order]
+                jones = None
+                if c % 2:
+                    jones = np.zeros((n, 3, 3), dtype=complex)
+                    for j in range(n):
+                        jones[j, 0, 0] = complex(rng.uniform(0.5, 1), rng.uniform(-0.2, 0.2))
+                        jones[j, 1, 1] = complex(rng.uniform(0.5, 1), rng.uniform(-0.2, 0.2))
+                        jones[j, 2, 2] = 1.0
+                state = create_polarization(rng.choice(['H', 'V', 'unpolarized', 'L+45']))
+                E = np.array([[complex(rng.uniform(-1, 1), rng.uniform(-1, 1)) for _ in range(3)] for _ in range(n)])
+                batch = make(k0, k1)
+                batch.update(jones)
+                pb = np.array(batch.p)
+                eb = np.array(batch.get_output_field(E))
+                try:
+                    batch.update_intensity(state)
+                    ib = np.array(batch.i)
+                except Exception:   # noqa
+                    ib = None
+                for j in range(n):
+                    one = make(k0[j], k1[j])
+                    one.update(None if jones is None else jones[j:j + 1])
+                    cmp_ += 1
+                    checks = [('PolarizedRays.update', pb[j], np.array(one.p)[0]),
+                              ('PolarizedRays.get_output_field', eb[j], np.array(one.get_output_field(E[j:j + 1]))[0])]
+                    if ib is not None:
+                        try:
+                            one.update_intensity(state)
+                            checks.append(('PolarizedRays.update_intensity', ib[j:j + 1], np.array(one.i)))
+                        except Exception:   # noqa
+                            pass
+                    for site, a, b in checks:
+                        a = np.concatenate([np.real(a).ravel(), np.imag(a).ravel()])
+                        b = np.concatenate([np.real(b).ravel(), np.imag(b).ravel()])
+                        if not _same_up_to_nan(a, b):
+                            fin = np.isfinite(a) & np.isfinite(b)
+                            viol.append({'site': site, 'ray': j, 'k0': k0.tolist(), 'k1': k1.tolist(),
+                                         'jones': jones is not None,
+                                         'deviation': float(np.max(np.abs(a[fin] - b[fin]))) if fin.any() else None})
+                            break
+                if viol:
+                    break
+        finally:
+            np.seterr(**old)
+    return viol, cmp_
